@@ -1,8 +1,10 @@
 (* C15 -- the converter cache behaves like a map from stream to latest output.
    Model: Pk.CacheFile (cachefile.go with the three C15 repairs, fx_all).  Only statements here;
-   the proofs are in Pk.CacheFileProofs / CacheFileRecord / CacheFileCts / CacheFileRoundtrip. *)
-From Coq Require Import NArith ZArith List Permutation.
-Require Import Pk.CacheFile Pk.CacheFileProofs Pk.CacheFileRecord Pk.CacheFileCts Pk.CacheFileRoundtrip.
+   the proofs are in Pk.CacheFileProofs / Record / Cts / Roundtrip (codec, one record) and
+   Pk.CacheFileState / Ops / Open / Refine (the object, NewCacheFile, refinement). *)
+From Coq Require Import NArith ZArith List Permutation Lia ZifyN.
+Require Import Pk.CacheFile Pk.CacheFileProofs Pk.CacheFileRecord Pk.CacheFileCts Pk.CacheFileRoundtrip
+               Pk.CacheFileState Pk.CacheFileOps Pk.CacheFileOpen Pk.CacheFileRefine.
 Import ListNotations.
 Open Scope N_scope.
 
@@ -67,3 +69,131 @@ Proof.
   - cbn. unfold Z63. repeat split; reflexivity.
   - vm_compute. reflexivity.
 Qed.
+
+(* ---------------- 3. every history refines a map ---------------- *)
+(* op       : OStore id t0 chunks | OInval ids | OReset | OCompact (truncateFile) | OReopen (Close + NewCacheFile)
+              | OCrash n (Close, file cut to n bytes, NewCacheFile)
+   run ops  : the model object after the history (None = some call returned an error)
+   s_run ops: the specification, an association list  id -> (t0, chunks with non-empty content)  with
+              store = replace, invalidate = remove, reset = empty, compact/reopen = identity
+   op_ok    : stream id < 2^64-1, lengths < 2^64, time steps < 2^63 ns; empty chunks are allowed (dropped)
+   Inv st rs: layout invariant -- the file is header ++ records rs, fileSize = |file|, the index maps every live
+              stream to the offset/size of its record, freeSize = bytes of tombstoned records, no tombstone
+              before freeStart, freeStart is a record boundary *)
+Theorem C15_history_refines_map : forall ops,
+  Forall op_ok ops -> Forall crash_free ops ->
+  exists st rs,
+    run ops = Some st /\ Inv st rs /\
+    let m := s_run ops in
+    stream_count st = N.of_nat (length m) /\
+    forall id,
+      contains st id = (match s_lookup m id with Some _ => true | None => false end) /\
+      match s_lookup m id with
+      | None => (forall t0, data st id t0 = Absent) /\ data_for_search st id = Absent
+      | Some (t0, cs) =>
+          data st id t0 = Ok (trunc_us t0 cs, len (enc_data false cs), len (enc_data true cs)) /\
+          data_for_search st id = Ok (enc_data false cs, enc_data true cs, (0, 0) :: totals 0 0 cs,
+                                      len (enc_data false cs), len (enc_data true cs))
+      end.
+Proof. exact history_refines_map. Qed.
+
+(* the accounting invariant in plain terms *)
+Theorem C15_accounting : forall st rs, Inv st rs ->
+  st_fileSize st = len (st_file st) /\
+  st_freeSize st = tomb_bytes rs /\
+  st_freeStart st <= st_fileSize st /\
+  forall id off sz, lookup (st_infos st) id = Some (off, sz) ->
+    16 <= off /\ off + sz <= st_fileSize st /\
+    exists a body b, rs = a ++ (id, body) :: b /\ off = 16 + len (flat a) /\ sz = len body /\
+                     section st off sz = body.
+Proof. exact inv_accounting. Qed.
+
+(* compaction and reopening leave no free space and keep exactly the live records *)
+Theorem C15_compaction : forall st rs, Inv st rs ->
+  exists st', truncate_file st = Some st' /\ Inv st' (live rs) /\ st_freeSize st' = 0.
+Proof. exact truncate_file_inv. Qed.
+
+Theorem C15_reopen : forall st rs, Inv st rs ->
+  exists st', reopen fx_all st = Some st' /\ Inv st' (live rs) /\ st_freeSize st' = 0.
+Proof. exact reopen_inv. Qed.
+
+(* ---------------- 4. torn tail ---------------- *)
+(* histories may contain crashes at any byte offset: no call ever fails and the invariant holds *)
+Theorem C15_history_with_crashes_never_fails : forall ops,
+  Forall op_ok ops -> exists st rs, run ops = Some st /\ Inv st rs.
+Proof. exact history_never_fails. Qed.
+
+(* every truncation point n >= 8: the file opens and serves exactly the k complete records, k maximal *)
+Theorem C15_torn_tail_serves_complete_records : forall ops n,
+  Forall op_ok ops -> 8 <= n ->
+  exists st rs k st',
+    run ops = Some st /\ Inv st rs /\
+    crash fx_all st n = Some st' /\
+    len (flat (firstn k rs)) <= n - 8 /\ (k = length rs \/ n - 8 < len (flat (firstn (S k) rs))) /\
+    (forall id t0, data st' id t0 = dec_result t0 (body_at (firstn k rs) id)) /\
+    (forall id, data_for_search st' id = search_result (body_at (firstn k rs) id)) /\
+    (forall id, contains st' id = match body_at (firstn k rs) id with Some _ => true | None => false end) /\
+    stream_count st' = N.of_nat (length (live (firstn k rs))).
+Proof. exact torn_tail_serves_complete_records. Qed.
+
+(* ... and the state after the crash satisfies the invariant for those records *)
+Theorem C15_torn_tail_state : forall st rs n, Inv st rs -> 8 <= n ->
+  exists k st',
+    crash fx_all st n = Some st' /\ Inv st' (live (firstn k rs)) /\ st_freeSize st' = 0 /\
+    len (flat (firstn k rs)) <= n - 8 /\
+    (k = length rs \/ n - 8 < len (flat (firstn (S k) rs))).
+Proof. exact crash_inv. Qed.
+
+(* fewer than 8 bytes left: an empty cache *)
+Theorem C15_crash_below_header_gives_empty_cache : forall ops n, Forall op_ok ops -> n < 8 ->
+  exists st, run ops = Some st /\ crash fx_all st n = Some reset_state.
+Proof. exact crash_below_header. Qed.
+
+(* a record cut anywhere is never mistaken for a complete one *)
+Theorem C15_cut_record_is_rejected : forall body q s, sd body -> body = q ++ s -> s <> [] -> skip_stream q = None.
+Proof. exact sd_prefix_fails. Qed.
+
+(* ---------------- the code before the three repairs (fx_none = /repo 913d8a0) ---------------- *)
+Definition c1 : list chunk := [mkChunk false [120] 1000%Z []].
+Definition st1 (fx : fixes) : state := match set_data fx reset_state 1 0%Z c1 with Some s => s | None => reset_state end.
+
+(* a file cut inside its last record did not open *)
+Theorem C15_unpatched_torn_tail_refuted : crash fx_none (st1 fx_none) 17 = None /\ crash fx_all (st1 fx_all) 17 = Some reset_state.
+Proof. split; vm_compute; reflexivity. Qed.
+
+(* invalidation was forgotten by a restart *)
+Theorem C15_unpatched_invalidate_refuted :
+  option_map (fun s => contains s 1) (reopen fx_none (fst (invalidate fx_none (st1 fx_none) [1]))) = Some true /\
+  option_map (fun s => contains s 1) (reopen fx_all (fst (invalidate fx_all (st1 fx_all) [1]))) = Some false.
+Proof. split; vm_compute; reflexivity. Qed.
+
+(* a chunk without content corrupted the record: here the following chunk "x" is lost (no error is reported) *)
+Definition c_empty_first : list chunk := [mkChunk true [] 1000%Z []; mkChunk false [120] 2000%Z []].
+Theorem C15_unpatched_empty_chunk_refuted :
+  option_map (fun s => data s 1 0%Z) (set_data fx_none reset_state 1 0%Z c_empty_first) = Some (Ok ([], 0, 0)) /\
+  option_map (fun s => data s 1 0%Z) (set_data fx_all reset_state 1 0%Z c_empty_first)
+  = Some (Ok ([mkChunk false [120] 2000%Z []], 1, 0)).
+Proof. split; vm_compute; reflexivity. Qed.
+
+(* ---------------- non-vacuity ---------------- *)
+Definition ex_ops : list op :=
+  [OStore 1 0%Z c1; OStore 2 0%Z [mkChunk true [1; 2] 2000%Z [97]; mkChunk true [] 2000%Z []];
+   OInval [1; 7]; OStore 2 0%Z c1; OCompact; OReopen; OStore 1 5000%Z c1].
+
+Example C15_history_hypotheses_satisfiable :
+  Forall op_ok ex_ops /\ Forall crash_free ex_ops /\
+  s_run ex_ops = [(1, (5000%Z, c1)); (2, (0%Z, c1))] /\
+  option_map (fun s => (stream_count s, data s 1 5000%Z, st_fileSize s, st_freeSize s)) (run ex_ops)
+  = Some (2, Ok ([mkChunk false [120] 1000%Z []], 1, 0), 45, 0).
+Proof.
+  split; [|split; [|split]].
+  - unfold ex_ops, c1. repeat constructor; cbn; try congruence; try (unfold invalid_id, W64, Z63; lia); try reflexivity.
+  - repeat constructor.
+  - reflexivity.
+  - vm_compute. reflexivity.
+Qed.
+
+Example C15_crash_example :
+  option_map (fun s => (contains s 1, contains s 2, st_fileSize s))
+             (match run ex_ops with Some s => crash fx_all s 43 | None => None end) = Some (false, true, 22).
+Proof. vm_compute. reflexivity. Qed.
